@@ -315,6 +315,8 @@ def cq_case(case):
 def cq_role(r):
     if r[0] == "orig":
         return "FOrig"
+    if r[0] == "passon":
+        return "FPassOn"
     if r[0] == "checker":
         return "FChecker"
     if r[0] == "foreign":
